@@ -10,6 +10,7 @@
   Only property theorems live here; helper lemmas are in ILV.Lemmas.Prov, ProvMatch, ProvBuild, ProvInv, ProvChain.
 -/
 import ILV.Lemmas.ProvChain
+import ILV.Model.ProvWire
 namespace ILV.Props.C21
 open ILV ILV.Prov
 
@@ -40,6 +41,25 @@ example : Derivable exProg exBase [] "q" [.i64 1, .i64 5] :=
 example : valid exProg exBase []
     (.node (.rule 0 [("Y", .i64 2), ("X", .i64 1)]) "p" [.i64 1]
       [.node (.fact .edb) "e" [.i64 1, .i64 2] [], .node (.neg [.conc (.i64 2)]) "f" [.i64 2] []]) = false := by decide
+
+/-! Value matching in the Spec is the numeric-aware one of `find_matching_tuples` (`valuesEqual`:
+    `Int32`/`Int64` compare numerically): rule literals are narrowed to `Int32` while stored facts are
+    `Int64`. A ground negation leaf `!flag(2, 1)` whose probe value is `Int32 1` IS refuted by the stored
+    `flag(Int64 2, Int64 1)` — `valid` rejects the tree (a strict-equality probe in the code would produce
+    exactly this leaf); through the other binding `P = 3` the tree is accepted; an `Int32` fact leaf for a
+    stored `Int64` fact is accepted. -/
+def litProg : Program := [⟨⟨"p", [.var "X"]⟩, [.pos ⟨"e", [.var "X", .var "P"]⟩, .neg ⟨"flag", [.var "P", .int 1]⟩]⟩]
+def litBase : DB := [("e", [[.i64 1, .i64 2], [.i64 1, .i64 3]]), ("flag", [[.i64 2, .i64 1]])]
+example : valid litProg litBase []
+    (.node (.rule 0 [("P", .i64 2), ("X", .i64 1)]) "p" [.i64 1]
+      [.node (.fact .edb) "e" [.i64 1, .i64 2] [], .node (.neg [.conc (.i64 2), .conc (.i32 1)]) "flag" [.i64 2, .i32 1] []]) = false := by decide
+example : valid litProg litBase []
+    (.node (.rule 0 [("P", .i64 3), ("X", .i64 1)]) "p" [.i64 1]
+      [.node (.fact .edb) "e" [.i64 1, .i64 3] [], .node (.neg [.conc (.i64 3), .conc (.i32 1)]) "flag" [.i64 3, .i32 1] []]) = true := by decide
+example : valid litProg litBase [] (.node (.fact .edb) "flag" [.i32 2, .i32 1] []) = true := by decide
+/-- and the model chainer (numeric-aware, like the code) explains `p(1)` through `P = 3`. -/
+example : (whyTree { rules := litProg, base := litBase, derived := some [("p", [[.i64 1]])] } "p" [.i64 1]).toWire
+    = "rule p i64:1 0 P=i64:3;X=i64:1 2 fact e i64:1,i64:3 edb neg flag i64:3,i32:1 c,c" := by decide
 
 /-- **C21 at full strength, about the model chainer**: for every program of the fragment, every
     base, the derived data being the perfect model, every depth limit and every true tuple, the
